@@ -664,7 +664,7 @@ Proof.
   { intros dd Hdd C. cbv zeta in C.
     assert (Ht : nth dd nz 0 < n).
     { assert (Hin : In (nth dd nz 0) nz) by (apply nth_In; exact Hdd).
-      unfold nz, nz_list in Hin. apply filter_In in Hin. destruct Hin as [Hin _]. apply in_seq in Hin. unfold n, d. lia. }
+      unfold nz, nz_list in Hin. apply filter_In in Hin. destruct Hin as [Hin _]. apply in_seq in Hin. exact (proj2 Hin). }
     assert (Em : nth (length nz - dd - 1) nz 0 = n - 1 - nth dd nz 0).
     { apply (nz_mirror (fun t => big (nth t st zero)) n dd); [|exact Hdd]. intros t Ht'. apply Hsym. exact Ht'. }
     rewrite (nth_indep _ 0%Z (diag_of g (offs d 0))) in * by (rewrite map_length; lia).
@@ -681,7 +681,7 @@ Proof.
       destruct (valid_shift g (offs d (nth dd nz 0)) (coords g i) Hc (offs_length d _) V) as [E' A].
       rewrite linear_coords, Nat.mod_small in E' by assumption.
       rewrite diag_of_zlin by apply offs_length.
-      replace (zlin g (offs d (nth dd nz 0)) + Z.of_nat i + Z.of_nat 0)%Z
+      replace (zlin g (offs d (nth dd nz 0%nat)) + Z.of_nat i + Z.of_nat 0)%Z
         with (Z.of_nat (linear g (addo (coords g i) (offs d (nth dd nz 0))))) by lia.
       apply Nat2Z.id.
     - cbn [negb] in C. rewrite big_zero, andb_false_r in C. discriminate. }
